@@ -7,6 +7,8 @@ CONSTANTS
   NHosts = 2
   MaxOps = 4
   StoreUnderReadLock = TRUE
+  ReopenForgetsKs = FALSE
+  FailKeepsLock = FALSE
   SelectIgnoresFailure = FALSE
 PROPERTIES TableWriteExclusive
 CHECK_DEADLOCK FALSE
